@@ -1,45 +1,59 @@
-(* F_C20_segment — machine-checked counterexample to the full-strength C20 statement for
-   `generator_2dspatial_segment` with random=True, on the step function regenerated from
-   neurodiffeq/temporal.py (known finding C20 / generator_2dspatial_segment / random=True).
+(* F_C20_segment — HISTORICAL: machine-checked counterexample to the full-strength C20 statement
+   for `generator_2dspatial_segment(random=True)` as it was BEFORE fix commit 1c60fb1 (known
+   finding F2, status fixed).  The old loop body rebound `center = center + noise`, so `center`
+   was loop-carried and the points performed a random walk.
 
-   The loop body rebinds `center = center + noise`, so `center` is loop-carried (the generated
-   `generator_2dspatial_segment_carried = ["center"]`): the points perform a random walk.
-   Witness: size 1, segment (0,0)-(1,0), every torch.rand element 3/4, third draw:
-   the centre is 1/2 + 3 * (3/4 - 1/2) = 5/4, off the segment.
-
-   This file never gates a check: if the source is repaired it simply stops compiling. *)
-From Coq Require Import String.
+   The step function below is what tools/props/t_C20.py generated from the OLD source, written
+   out by hand; nothing here depends on the generated Gen_C20.v, only on model/Legacy.v.
+   Witness: size 1, segment (0,0)-(1,0), every torch.rand element 3/4, third draw: the centre is
+   1/2 + 3 * (3/4 - 1/2) = 5/4, off the segment.  Never gates a check. *)
 From Coq Require Import Reals List Lra Lia ZArith.
 From ND.model Require Import Legacy.
-From ND.gen Require Import Gen_C20.
-From ND.proofs Require Import C20_samplers.
 Import ListNotations.
 Open Scope R_scope.
 
-Example segment_center_is_loop_carried : generator_2dspatial_segment_carried = ["center"%string].
-Proof. reflexivity. Qed.
+Definition ROps : FOps := mkFOps R Rplus Rminus Rmult Rdiv Ropp IZR.
 
-Example samplers_without_state :
-  generator_1dspatial_carried = [] /\ generator_temporal_carried = [].
-Proof. split; reflexivity. Qed.
+Definition old_segment_state (O : FOps) : Type := Vec O.        (* loop-carried: center *)
+Definition old_segment_init (O : FOps) (size : nat) (start : F O * F O) (end_ : F O * F O) (random : bool) : old_segment_state O :=
+  let step := fdiv O (fofZ O 1) (fofnat O size) in
+  linspace O (fadd O (fofZ O 0) (fmul O (fofQ O 1 2) step)) (fsub O (fofZ O 1) (fmul O (fofQ O 1 2) step)) size.
+Definition old_segment_step (O : FOps) (rnd : nat -> Vec O) (size : nat) (start : F O * F O) (end_ : F O * F O) (random : bool)
+    (cur : nat) (st : old_segment_state O) : ((Vec O * Vec O) * nat * old_segment_state O) :=
+  let '(x1, y1) := start in
+  let '(x2, y2) := end_ in
+  let step := fdiv O (fofZ O 1) (fofnat O size) in
+  let noise_lo := fmul O (fopp O step) (fofQ O 1 2) in
+  let center := st in
+  if random then
+    let noise := vmapr (fadd O) (vmapl (fmul O) step (rnd cur)) noise_lo in
+    let center := vmap2 (fadd O) center noise in                  (* center = center + noise *)
+    ((vmapl (fadd O) x1 (vmapl (fmul O) (fsub O x2 x1) center), vmapl (fadd O) y1 (vmapl (fmul O) (fsub O y2 y1) center)), S cur, center)
+  else
+    ((vmapl (fadd O) x1 (vmapl (fmul O) (fsub O x2 x1) center), vmapl (fadd O) y1 (vmapl (fmul O) (fsub O y2 y1) center)), cur, center).
 
-Lemma segment_third_draw :
-  let out := draw (generator_2dspatial_segment_step ROps (fun _ _ => 3 / 4) 1 (0, 0) (1, 0) true) 2 0
-                  (generator_2dspatial_segment_init ROps 1 (0, 0) (1, 0) true) in
+Definition unit_draws (rnd : nat -> nat -> R) : Prop := forall c j, 0 <= rnd c j < 1.
+Definition segment_stratum (x1 y1 x2 y2 : R) (n i : nat) (x y : R) : Prop :=
+  exists s, INR i / INR n <= s <= (INR i + 1) / INR n /\ x = x1 + (x2 - x1) * s /\ y = y1 + (y2 - y1) * s.
+
+Lemma old_segment_third_draw :
+  let out := draw (old_segment_step ROps (fun _ _ => 3 / 4) 1 (0, 0) (1, 0) true) 2 0
+                  (old_segment_init ROps 1 (0, 0) (1, 0) true) in
   fst out 0%nat = 5 / 4.
 Proof.
-  unfold draw. cbn [run]. unfold generator_2dspatial_segment_step, generator_2dspatial_segment_init.
-  cbv zeta. cbn [fst snd]. unfold vmap2, vmapr, vmapl, linspace. cbn [Nat.eqb]. r_ops. cbn [INR]. field.
+  unfold draw. cbn [run]. unfold old_segment_step, old_segment_init.
+  cbv zeta. cbn [fst snd]. unfold vmap2, vmapr, vmapl, linspace, fofQ, fofnat. cbn [Nat.eqb].
+  cbn [F fadd fsub fmul fdiv fopp fofZ ROps Z.of_nat Pos.of_succ_nat]. field.
 Qed.
 
-Theorem C20_segment_all_draws_refuted :
+Theorem old_segment_all_draws_refuted :
   exists (rnd : nat -> nat -> R) (size : nat) (x1 y1 x2 y2 : R) (k cur i : nat),
     unit_draws rnd /\ (1 <= size)%nat /\ (i < size)%nat /\
-    let out := draw (generator_2dspatial_segment_step ROps rnd size (x1, y1) (x2, y2) true) k cur
-                    (generator_2dspatial_segment_init ROps size (x1, y1) (x2, y2) true) in
+    let out := draw (old_segment_step ROps rnd size (x1, y1) (x2, y2) true) k cur
+                    (old_segment_init ROps size (x1, y1) (x2, y2) true) in
     ~ segment_stratum x1 y1 x2 y2 size i (fst out i) (snd out i).
 Proof.
   exists (fun _ _ => 3 / 4), 1%nat, 0, 0, 1, 0, 2%nat, 0%nat, 0%nat.
   split; [intros c j; lra|]. split; [lia|]. split; [lia|].
-  cbv zeta. rewrite segment_third_draw. intros [s [[Hs0 Hs1] [Hx _]]]. cbn [INR] in *. lra.
+  cbv zeta. rewrite old_segment_third_draw. intros [s [[Hs0 Hs1] [Hx _]]]. cbn [INR] in *. lra.
 Qed.
